@@ -41,6 +41,12 @@ CLAIMED["C18"] = {
     "note": "Integers beyond 2^31 are decimal digit strings (decimal presentations only); 'n' in the C locale; the PEP 682 'z' option of Python 3.11 is not part of the alphabet; float digit generation for arbitrary doubles relies on Rust std (see C17).",
     "technique": "TLA+ definition of the reference format() semantics model-checked by TLC; exhaustive TLC-generated (spec, value) cells replayed into Rust; CPython cross-validation of the spec",
 }
+CLAIMED["C16"] = {
+    "text": "The repr pre-pass (out_len and quote counters, one step per character), the quote choice, the fast-path decision and the writer are a TLA+ machine (Escape.tla) checked by TLC against Python's repr written as a per-class table: ReprOK (text and quote), LenOK (announced length = real length), FastOK (fast path iff nothing is escaped) and RoundTripOK (Decode(Repr(s)) = s with the literal escape decoder) for every class string <= 3/4 over 16 text classes and <= 4/5 over 10 byte classes, each with three class-member variants; every case is replayed on UnicodeEscape/AsciiEscape (text, Display, announced length, changed flag, quote) and parsed back with Constant::parse; CPython repr()/literal_eval validate the spec on every case; all byte strings <= 1 (quick, plus a sample of length 2) / <= 2 (thorough) are compared with CPython's repr.",
+    "design_ref": "DESIGN.md section 6 C16",
+    "note": "Class members are code points whose printable status is Unicode-version independent; the is_printable table itself (unic-ucd-category) is only sampled through those members.",
+    "technique": "TLA+ machine of the repr layout/writer model-checked by TLC against a declarative repr table and decoder; exhaustive class strings replayed into Rust and parsed back; CPython cross-validation",
+}
 NOT_YET = {}
 
 def main():
